@@ -1584,6 +1584,11 @@ def times_rise_transit_set(
         # Compute the hour angles
         theta = theta0 + 360.985647 * m0
         transit_ha = theta - longitude - transit_alpha
+        # The hour angle must be in the -180..+180 range
+        if transit_ha > 180.0:
+            transit_ha -= 360.0
+        elif transit_ha < -180.0:
+            transit_ha += 360.0
         delta_transit = transit_ha / (-360.0)
         theta = theta0 + 360.985647 * m1
         rise_ha = theta - longitude - rise_alpha
